@@ -478,18 +478,21 @@ theorem dump_load_answers_covered_subscribers (r : Node) (d : Dump) (clear : Boo
       (loadDump r d clear).waiting = r.waiting.filter (fun p => !decide (p.1 ≤ d.last.idx)) ∧
       (∀ p ∈ (loadDump r d clear).waiting, (loadDump r d clear).lastApplied < p.1) ∧
       loadDumpEvents r d clear =
-        (coveredWaiting r.waiting d.last.idx).flatMap (fun p => p.2.map (fun s => Ev.callbackOpen s.2)) ∧
+        (coveredWaiting r.waiting d.last.idx).flatMap (fun p => p.2.map (fun s =>
+          Ev.callbackOpen s.2 (loadDump r d clear).enabled (loadDump r d clear).tableVer)) ∧
       (∀ p, p ∈ coveredWaiting r.waiting d.last.idx ↔ p ∈ r.waiting ∧ p.1 ≤ d.last.idx) ∧
       (coveredWaiting r.waiting d.last.idx).Pairwise (fun a b => a.1 ≤ b.1) ∧
-      (∀ cb, Ev.callbackOpen cb ∈ loadDumpEvents r d clear ↔
-        ∃ p ∈ r.waiting, p.1 ≤ d.last.idx ∧ ∃ s ∈ p.2, s.2 = cb)) ∧
+      (∀ cb he ht, Ev.callbackOpen cb he ht ∈ loadDumpEvents r d clear ↔
+        (∃ p ∈ r.waiting, p.1 ≤ d.last.idx ∧ ∃ s ∈ p.2, s.2 = cb) ∧
+        he = (loadDump r d clear).enabled ∧ ht = (loadDump r d clear).tableVer)) ∧
     ranIdxs (loadDumpEvents r d clear) = [] := by
   refine ⟨fun h => ⟨by simp [loadDumpEvents, h], by simp [loadDump, h]⟩, fun h => ?_, ranIdxs_loadDumpEvents r d clear⟩
   have hw : (loadDump r d clear).waiting = r.waiting.filter (fun p => !decide (p.1 ≤ d.last.idx)) := by
     simp [loadDump, h]
   have hl : (loadDump r d clear).lastApplied = d.last.idx := by simp [loadDump, h]
   have he : loadDumpEvents r d clear =
-      (coveredWaiting r.waiting d.last.idx).flatMap (fun p => p.2.map (fun s => Ev.callbackOpen s.2)) := by
+      (coveredWaiting r.waiting d.last.idx).flatMap (fun p => p.2.map (fun s =>
+        Ev.callbackOpen s.2 (loadDump r d clear).enabled (loadDump r d clear).tableVer)) := by
     simp [loadDumpEvents, h]
   refine ⟨hw, ?_, he, fun p => mem_coveredWaiting, coveredWaiting_sorted _ _, ?_⟩
   · intro p hp
@@ -498,20 +501,40 @@ theorem dump_load_answers_covered_subscribers (r : Node) (d : Dump) (clear : Boo
     have := hp.2
     simp only [Bool.not_eq_true', decide_eq_false_iff_not] at this
     omega
-  · intro cb
+  · intro cb he' ht'
     rw [he]
     simp only [List.mem_flatMap, List.mem_map, Ev.callbackOpen.injEq]
     constructor
-    · rintro ⟨p, hp, s, hs, rfl⟩
+    · rintro ⟨p, hp, s, hs, rfl, rfl, rfl⟩
       obtain ⟨h1, h2⟩ := mem_coveredWaiting.1 hp
-      exact ⟨p, h1, h2, s, hs, rfl⟩
-    · rintro ⟨p, h1, h2, s, hs, rfl⟩
-      exact ⟨p, mem_coveredWaiting.2 ⟨h1, h2⟩, s, hs, rfl⟩
+      exact ⟨⟨p, h1, h2, s, hs, rfl⟩, rfl, rfl⟩
+    · rintro ⟨⟨p, h1, h2, s, hs, rfl⟩, rfl, rfl⟩
+      exact ⟨p, mem_coveredWaiting.2 ⟨h1, h2⟩, s, hs, rfl, rfl, rfl⟩
+
+/-- **A call made from an install callback resolves with the table of the installed version** (repair D82). Every
+`(None, LEADER_CHANGED)` callback a dump load fires runs in a state where `getCodeVersion()` is the version the loaded
+node ends with and the name table is the one built for exactly that version; for a dump taken by `m` that is
+`m.enabled`. So a command re-submitted from such a callback goes out - by `call_uses_resolved_implementation` and
+`resolution_is_max_le_enabled` - with the newest implementation not above the snapshot's version. -/
+theorem install_callback_sees_installed_table (m r : Node) (d : Dump) (clear : Bool) (cb he ht : Nat)
+    (h : Ev.callbackOpen cb he ht ∈ loadDumpEvents r d clear) :
+    he = (loadDump r d clear).enabled ∧ ht = he ∧ skipsInstall r d clear = false ∧
+    (takeDump m = some d → he = m.enabled ∧
+      ∀ k, callId r.cls ht k = callId (loadDump r d clear).cls (loadDump r d clear).tableVer k) := by
+  have hs : skipsInstall r d clear = false := by
+    cases hsk : skipsInstall r d clear with
+    | false => rfl
+    | true => simp [loadDumpEvents, hsk] at h
+  obtain ⟨_, he1, ht1⟩ := ((dump_load_answers_covered_subscribers r d clear).2.1 hs).2.2.2.2.2 cb he ht |>.1 h
+  have htab : (loadDump r d clear).tableVer = (loadDump r d clear).enabled := by simp [loadDump, hs]
+  refine ⟨he1, by rw [ht1, he1, htab], hs, fun hm => ?_⟩
+  obtain ⟨hen, _, hc, _⟩ := survives_snapshot_and_restart m r d clear hm hs
+  exact ⟨by rw [he1, hen], fun k => by rw [ht1, hc]⟩
 
 /-- Non-vacuity: a fresh node holding callbacks for index 4 (covered, two subscribers) and 9 (not covered) installs a
 dump at 6. -/
 example : ∃ (r : Node) (d : Dump), skipsInstall r d true = false ∧
-    loadDumpEvents r d true = [Ev.callbackOpen 91, Ev.callbackOpen 94] ∧
+    loadDumpEvents r d true = [Ev.callbackOpen 91 1 1, Ev.callbackOpen 94 1 1] ∧
     (loadDump r d true).waiting = [(9, [(1, 93)])] :=
   ⟨{ initNode [] with waiting := [(4, [(1, 91), (2, 94)]), (9, [(1, 93)])] },
    ⟨some 1, ⟨.noop, 5, 1⟩, ⟨.version 1, 6, 1⟩⟩, by decide, by decide +kernel, by decide +kernel⟩
